@@ -31,8 +31,8 @@ BUDGET_S = {'quick': 240, 'thorough': 900}
 
 def bounds(tier):
     if tier == 'quick':
-        return {'constants': 4, 'equations': '<= 2 exhaustive (2485 sets), 3: 7200 seeded sets (N=4) + 960 (N=5), chains: 256 seeded sets of 5 equations over 6 constants (0-2 f-equations)', 'orders': 'all', 'hol_sets': 960}
-    return {'constants': [4, 5], 'equations': 'N=4: <= 3 exhaustive; N=4: 4 and N=5: 3, 20000 seeded sets each; chains: 4800 sets of 5 equations over 6 constants, 800 sets of 6 over 7', 'orders': 'all', 'hol_sets': 6000}
+        return {'constants': 4, 'equations': '<= 2 exhaustive (2485 sets), 3: 7200 seeded sets (N=4) + 960 (N=5), chains: 256 seeded sets of 5 equations over 6 constants (0-2 f-equations); deep: 384 seeded sets of 9 equations over 10 constants (7 plain + 2 f-equations, 60% of the form f(x,x) = z), 12 seeded orders each', 'orders': 'all', 'hol_sets': 960}
+    return {'constants': [4, 5], 'equations': 'N=4: <= 3 exhaustive; N=4: 4 and N=5: 3, 20000 seeded sets each; chains: 4800 sets of 5 equations over 6 constants, 800 sets of 6 over 7; deep: 6400 sets of 9 equations over 10 constants and 1600 of 11 over 12, 12 seeded orders each', 'orders': 'all', 'hol_sets': 6000}
 
 
 def universe(N):
@@ -56,6 +56,8 @@ def units(tier, seed):
             us.append(('core', 5, 3, 'sample', (seed, i), 60))
         for i in range(16):
             us.append(('core', 6, 5, 'chain', (seed, i), 16))
+        for i in range(32):
+            us.append(('core', 10, 9, 'deep', (seed, i), 12))
         for i in range(16):
             us.append(('hol', seed, i, 60))
     else:
@@ -70,6 +72,9 @@ def units(tier, seed):
         for i in range(80):
             us.append(('core', 6, 5, 'chain', (seed, i), 60))
             us.append(('core', 7, 6, 'chain', (seed, i), 10))
+        for i in range(160):
+            us.append(('core', 10, 9, 'deep', (seed, i), 40))
+            us.append(('core', 12, 11, 'deep', (seed, i), 10))
         for i in range(60):
             us.append(('hol', seed, i, 100))
     random.Random(seed).shuffle(us)
@@ -174,12 +179,34 @@ def run_core(u, out, twin):
         for _ in range(parts):
             nf = rnd.choice([0, 0, 1, 2])
             combos.append(tuple(rnd.sample(plain, k - nf) + rnd.sample(fe, nf)))
+    elif how == 'deep':
+        # many constants, classes absorbed several times (use lists moved more than once), applications with both arguments in one
+        # class (f(x,x) = z) next to arbitrary ones; a seeded sample of orders per set (always the given and the reversed order)
+        rnd = random.Random('c17dp-%s-%s-%s' % (N, k, arg))
+        plain = [e for e in uni if not isinstance(e[0], tuple)]
+        combos = []
+        for _ in range(parts):
+            fes = []
+            for _j in range(2):
+                if rnd.random() < 0.6:
+                    x = rnd.randrange(N)
+                    fes.append(((x, x), rnd.randrange(N)))
+                else:
+                    fes.append(((rnd.randrange(N), rnd.randrange(N)), rnd.randrange(N)))
+            if fes[0] == fes[1]:
+                continue
+            combos.append(tuple(rnd.sample(plain, k - 2) + fes))
     else:
         rnd = random.Random('c17-%s-%s-%s' % (N, k, arg))
         combos = [tuple(rnd.sample(uni, k)) for _ in range(parts)]
     for eqs in combos:
         answers = None
-        for order in itertools.permutations(eqs):
+        if how == 'deep':
+            ornd = random.Random('c17dpo-%s' % (eqs,))
+            orders = [tuple(eqs), tuple(reversed(eqs))] + [tuple(ornd.sample(eqs, len(eqs))) for _ in range(10)]
+        else:
+            orders = itertools.permutations(eqs)
+        for order in orders:
             out['evals'] += 1
             out['keys'].add('%d|%s' % (N, order))
             if twin:
@@ -193,7 +220,7 @@ def run_core(u, out, twin):
             break
     out['stats'] = {'euf_queries': cache.get('queries', 0)}
     if combos:
-        out['samples'].append({'constants': N, 'equations': [str(e) for e in combos[-1]], 'orders': 'all %d' % len(list(itertools.permutations(combos[-1])))})
+        out['samples'].append({'constants': N, 'equations': [str(e) for e in combos[-1]], 'orders': '12 seeded' if how == 'deep' else 'all %d' % len(list(itertools.permutations(combos[-1])))})
 
 
 # ------------------------------------------------------------------ HOL wrapper
